@@ -28,7 +28,7 @@
   * `fatalInbound`             = `handle_inbound_event(InboundEvent::FatalError)`; `fatalInternal` = raft.rs
                                  `InternalEvent::FatalError` (returns the error, touches no queue)
   * `initNoop`                 = `initiate_noop_commit`; `join` = `handle_join_cluster`
-  * `majority`                 = storage/buffered_raft_log.rs `calculate_majority_matched_index`
+  * `majorityOf`               = storage/buffered_raft_log.rs `calculate_majority_matched_index`
   * follower role: role_state.rs `RaftRoleState::push_client_cmd` (writes / scans rejected "Not leader")
 
   Request ids are assigned by arrival order (one counter for writes, reads, scans, joins). Every response that
@@ -137,19 +137,23 @@ def insertDesc (x : Nat) : List Nat → List Nat
 
 def sortDesc (l : List Nat) : List Nat := l.foldr insertDesc []
 
-/-- `calculate_majority_matched_index(current_term, commit_index, peer_matched_ids)`. -/
-def majority (s : St) : Option Nat :=
-  -- as coded: peers without a map entry are NOT counted as 0, they are simply absent from the vector
-  let ids := sortDesc (s.matchIdx.filter (· > 0) ++ [s.lastEntry])
+/-- storage/buffered_raft_log.rs `calculate_majority_matched_index(current_term, commit_index, ids)`. -/
+def majorityOf (s : St) (peerIds : List Nat) : Option Nat :=
+  let ids := sortDesc (peerIds ++ [s.lastEntry])
   let m := ids.getD (ids.length / 2) 0
   if m < s.commit then none
   else if m ≠ 0 && s.termAt m == s.term then some m else none
 
-/-- `calculate_new_commit_index`. -/
+/-- `calculate_new_commit_index` (after fix 6ed8b1f): EVERY voter counts, one without a map entry as 0. -/
 def newCommit (s : St) : Option Nat :=
-  match majority s with
+  match majorityOf s s.matchIdx with
   | some m => if m > s.commit then some m else none
   | none => none
+
+/-- the `quorum_confirmed` computation inside `handle_append_result` (after fix a5e530a): every voter counts,
+    one without a map entry as 0 — the same rule as `calculate_new_commit_index`. It is still a function of the
+    MONOTONE match indexes, not of which round an acknowledgement answers. -/
+def quorumConfirmed (s : St) : Bool := (majorityOf s s.matchIdx).isSome
 
 /-- The read answer: `read_from_state_machine` on the simulated state machine. -/
 def St.readVal (s : St) : Resp := .val s.kv s.applied
@@ -202,34 +206,38 @@ def preadsInsert (pr : List (Nat × Nat × List Nat)) (ri dl : Nat) (ids : List 
 /-- `calculate_read_index`. -/
 def St.readIndex (s : St) : Nat := max s.commit (s.noopIdx.getD 0)
 
+/-- Phases 0–2 of `execute_and_process_raft_rpc`: send timestamp, local append, `pending_client_writes.insert`. -/
+def execAppend (c : Cfg) (s : St) (ents : List EntKind) (wm : Option WMeta) : St :=
+  let s1 : St := { s with lastSendTs := s.now, log := s.log ++ ents.map fun k => { term := s.term, kind := k } }
+  match wm with
+  | some m =>
+    if m.senders.isEmpty then s1
+    else { s1 with pcw := s1.pcw ++ [(m.start + m.senders.length - 1, { m with deadline := s1.now + c.timeout })] }
+  | none => s1
+
+/-- the noop gate: before the noop commits every linearizable read of the batch is refused -/
+def gateReads (s : St) (reads : Option (List Nat)) : Option (List Nat) × Out :=
+  match s.noopIdx, reads with
+  | none, some rs => (none, answerAll rs .notReady)
+  | _, r => (r, [])
+
+/-- Phase 3: serve now (single voter or valid lease, and the state machine has reached the read index) or park
+    the batch in `pending_reads` under the read index. -/
+def routeReads (c : Cfg) (s : St) (reads : Option (List Nat)) : St × Out :=
+  match reads with
+  | some rs =>
+    if (c.single || s.leaseValid) && s.applied ≥ s.readIndex then (s, answerAll rs s.readVal)
+    else ({ s with preads := preadsInsert s.preads s.readIndex (s.now + c.timeout) rs }, [])
+  | none => (s, [])
+
 def execRpc (c : Cfg) (s : St) (ents : List EntKind) (wm : Option WMeta) (reads : Option (List Nat)) :
     St × Out :=
-  -- Phase 0 / Phase 1
-  let s := { s with lastSendTs := s.now, log := s.log ++ ents.map fun k => { term := s.term, kind := k } }
-  -- Phase 2
-  let s := match wm with
-    | some m =>
-      if m.senders.isEmpty then s
-      else
-        let endIdx := m.start + m.senders.length - 1
-        { s with pcw := s.pcw ++ [(endIdx, { m with deadline := s.now + c.timeout })] }
-    | none => s
-  -- noop gate
-  let (reads, out1) : Option (List Nat) × Out :=
-    match s.noopIdx, reads with
-    | none, some rs => (none, answerAll rs .notReady)
-    | _, r => (r, [])
-  -- Phase 3
-  let (s, out2) : St × Out :=
-    match reads with
-    | some rs =>
-      let ri := s.readIndex
-      if (c.single || s.leaseValid) && s.applied ≥ ri then (s, answerAll rs s.readVal)
-      else ({ s with preads := preadsInsert s.preads ri (s.now + c.timeout) rs }, [])
-    | none => (s, [])
-  -- Phase 4/5: a round goes out iff there are peers
-  let s := if c.single then s else { s with rounds := s.rounds + 1 }
-  (s, out1 ++ out2)
+  let s1 := execAppend c s ents wm
+  let g := gateReads s1 reads
+  let r := routeReads c s1 g.1
+  -- Phase 4/5: a round goes out iff there are peers (ghost counter)
+  let s2 : St := if c.single then r.1 else { r.1 with rounds := r.1.rounds + 1 }
+  (s2, g.2 ++ r.2)
 
 def flushPropose (s : St) : St × Option (List EntKind × WMeta) :=
   if s.propose.isEmpty then (s, none)
@@ -251,35 +259,36 @@ def processLeaseRead (c : Cfg) (s : St) (id : Nat) : St × Out :=
 def processLeaseReads (c : Cfg) : St → List Nat → St × Out
   | s, [] => (s, [])
   | s, id :: rest =>
-    let (s1, o1) := processLeaseRead c s id
-    let (s2, o2) := processLeaseReads c s1 rest
-    (s2, o1 ++ o2)
+    let r1 := processLeaseRead c s id
+    let r2 := processLeaseReads c r1.1 rest
+    (r2.1, r1.2 ++ r2.2)
 
-def flush (c : Cfg) (s : St) : St × Out :=
+/-- first part of `flush_cmd_buffers`: the write / linearizable-read batch -/
+def flushMain (c : Cfg) (s : St) : St × Out :=
   let hasW := !s.propose.isEmpty
   let hasR := !s.linBuf.isEmpty
-  let (s, o1) : St × Out :=
-    if hasW && !hasR then
-      -- process_batch: resets the replication timer
-      let (s, b) := flushPropose s
-      let s := { s with replDl := s.now + c.hb }
-      match b with
-      | some (ents, m) => execRpc c s ents (some m) none
-      | none => (s, [])
-    else if hasW || hasR then
-      -- unified_write_and_linear_read: no timer reset
-      let (s, b) := flushPropose s
-      let reads := if s.linBuf.isEmpty then none else some s.linBuf
-      let s := { s with linBuf := [] }
-      match b with
-      | some (ents, m) => execRpc c s ents (some m) reads
-      | none => execRpc c s [] none reads
-    else (s, [])
-  let lq := s.leaseQ
-  let (s, o2) := processLeaseReads c { s with leaseQ := [] } lq
-  let eq := s.evQ
-  let s := { s with evQ := [] }
-  (s, o1 ++ o2 ++ answerAll eq s.readVal)
+  if hasW && !hasR then
+    -- process_batch: resets the replication timer
+    let r := flushPropose s
+    let s1 : St := { r.1 with replDl := r.1.now + c.hb }
+    match r.2 with
+    | some b => execRpc c s1 b.1 (some b.2) none
+    | none => (s1, [])
+  else if hasW || hasR then
+    -- unified_write_and_linear_read: no timer reset
+    let r := flushPropose s
+    let reads := if r.1.linBuf.isEmpty then none else some r.1.linBuf
+    let s1 : St := { r.1 with linBuf := [] }
+    match r.2 with
+    | some b => execRpc c s1 b.1 (some b.2) reads
+    | none => execRpc c s1 [] none reads
+  else (s, [])
+
+def flush (c : Cfg) (s : St) : St × Out :=
+  let r1 := flushMain c s
+  let r2 := processLeaseReads c { r1.1 with leaseQ := [] } r1.1.leaseQ
+  let s3 : St := { r2.1 with evQ := [] }
+  (s3, r1.2 ++ r2.2 ++ answerAll r2.1.evQ s3.readVal)
 
 /-! ### commit-driven drains -/
 
@@ -317,26 +326,36 @@ def servePreads (s : St) (upto : Nat) : St × Out :=
 def setMatch (l : List Nat) (i v : Nat) : List Nat :=
   l.zipIdx.map fun (x, j) => if j == i then max x v else x
 
+/-- commit index := `nc`, then `drain_pending_client_writes(nc)` and `drain_commit_actions(nc)`. -/
+def commitTo (s : St) (nc : Nat) : St × Out :=
+  let r1 := drainWrites { s with commit := nc } nc
+  let r2 := drainActions r1.1 nc
+  (r2.1, r1.2 ++ r2.2)
+
+def advanceCommit (s : St) (nc : Option Nat) : St × Out :=
+  match nc with
+  | some n => commitTo s n
+  | none => (s, [])
+
+/-- the `quorum_confirmed` block of `handle_append_result`: lease renewal anchored at the last send
+    timestamp, `drain_pending_lease_reads`, Path A drain of `pending_reads` up to `last_applied`. -/
+def onQuorum (c : Cfg) (s : St) : St × Out :=
+  let sendTs := if s.lastSendTs > 0 then s.lastSendTs else s.now
+  let s1 : St := { s with leaseDl := sendTs + c.lease, leaseTerm := s.term }
+  let r2 := drainPleases s1
+  let r3 := servePreads r2.1 r2.1.applied
+  (r3.1, r2.2 ++ r3.2)
+
 /-- `handle_append_result`, same-term success from voter `peer` (2-based) with `last_match.index = m`. -/
 def ackSuccess (c : Cfg) (s : St) (peer m : Nat) : St × Out :=
   if peer < 2 || peer > c.voters then (s, [])     -- not a replication target: `is_voter` = false, nothing observable
   else
-    let s := { s with matchIdx := setMatch s.matchIdx (peer - 2) m }
-    let (s, o1) : St × Out :=
-      match newCommit s with
-      | some nc =>
-        let s := { s with commit := nc }
-        let (s, a) := drainWrites s nc
-        let (s, b) := drainActions s nc
-        (s, a ++ b)
-      | none => (s, [])
-    if (majority s).isSome then
-      let sendTs := if s.lastSendTs > 0 then s.lastSendTs else s.now
-      let s := { s with leaseDl := sendTs + c.lease, leaseTerm := s.term }
-      let (s, o2) := drainPleases s
-      let (s, o3) := servePreads s s.applied
-      (s, o1 ++ o2 ++ o3)
-    else (s, o1)
+    let s0 : St := { s with matchIdx := setMatch s.matchIdx (peer - 2) m }
+    let r1 := advanceCommit s0 (newCommit s0)
+    if quorumConfirmed r1.1 then
+      let r2 := onQuorum c r1.1
+      (r2.1, r1.2 ++ r2.2)
+    else r1
 
 /-- `drain_pending_writes_with_error`. -/
 def drainWritesErr (s : St) (r : Resp) : St × Out :=
@@ -356,15 +375,13 @@ def logFlushed (c : Cfg) (s : St) : St × Out :=
     if c.single then (if s.lastEntry > s.commit then some s.lastEntry else none) else newCommit s
   match nc with
   | none => (s, [])
-  | some nc =>
-    let s := { s with commit := nc }
-    let (s, a) := drainWrites s nc
-    let (s, b) := drainActions s nc
+  | some n =>
+    let r1 := commitTo s n
     if c.single then
-      let s := { s with leaseDl := s.now + c.lease, leaseTerm := s.term }
-      let (s, d) := drainPleases s
-      (s, a ++ b ++ d)
-    else (s, a ++ b)
+      let s1 : St := { r1.1 with leaseDl := r1.1.now + c.lease, leaseTerm := r1.1.term }
+      let r2 := drainPleases s1
+      (r2.1, r1.2 ++ r2.2)
+    else r1
 
 /-! ### the environment's state machine and `handle_apply_completed` -/
 
@@ -396,12 +413,12 @@ def applyUpTo (s : St) (k : Nat) : St × Out :=
   let k := min k (min s.commit s.lastEntry)
   if k ≤ s.applied then (s, [])
   else
-    let (kv', results) := applyRange s.log s.kv s.applied (k - s.applied)
-    let s := { s with kv := kv', applied := k }
-    let o1 := applyResponses s.pwa results
-    let s := { s with pwa := s.pwa.filter fun e => !(results.any (·.1 == e.1)) }
-    let (s, o2) := servePreads s k
-    (s, o1 ++ o2)
+    let ar := applyRange s.log s.kv s.applied (k - s.applied)
+    let s1 : St := { s with kv := ar.1, applied := k }
+    let o1 := applyResponses s1.pwa ar.2
+    let s2 : St := { s1 with pwa := s1.pwa.filter fun e => !(ar.2.any (·.1 == e.1)) }
+    let r3 := servePreads s2 k
+    (r3.1, o1 ++ r3.2)
 
 /-! ### tick -/
 
@@ -419,18 +436,20 @@ def sweep (c : Cfg) (s : St) : St × Out :=
   let _ := c
   (s, o1 ++ o2 ++ o3 ++ o4)
 
+/-- the heartbeat-or-batch part of `tick` -/
+def heartbeat (c : Cfg) (s : St) : St × Out :=
+  if s.now ≥ s.replDl then
+    let r := flushPropose s
+    let s1 : St := { r.1 with replDl := r.1.now + c.hb }
+    match r.2 with
+    | some b => execRpc c s1 b.1 (some b.2) none
+    | none => execRpc c s1 [] none none
+  else (s, [])
+
 def tick (c : Cfg) (s : St) (ms : Nat) : St × Out :=
-  let s := { s with now := s.now + ms }
-  let (s, o1) : St × Out :=
-    if s.now ≥ s.replDl then
-      let (s, b) := flushPropose s
-      let s := { s with replDl := s.now + c.hb }
-      match b with
-      | some (ents, m) => execRpc c s ents (some m) none
-      | none => execRpc c s [] none none
-    else (s, [])
-  let (s, o2) := sweep c s
-  (s, o1 ++ o2)
+  let r1 := heartbeat c { s with now := s.now + ms }
+  let r2 := sweep c r1.1
+  (r2.1, r1.2 ++ r2.2)
 
 /-! ### role change / fatal -/
 
@@ -463,13 +482,13 @@ def initNoop (c : Cfg) (s : St) : St × Out :=
 
 def join (c : Cfg) (s : St) (node : Nat) : St × Out :=
   let id := s.nextId
-  let s := { s with nextId := id + 1 }
-  if node ≥ 1 && node ≤ c.voters then (s, [(id, .joinExists)])
+  let s0 : St := { s with nextId := id + 1 }
+  if node ≥ 1 && node ≤ c.voters then (s0, [(id, .joinExists)])
   else
-    let dl := s.now + c.ptimeout
-    let s := { s with replDl := s.now + c.hb }
-    let (s, o) := execRpc c s [EntKind.conf] (some { start := s.lastEntry + 1, senders := [], wait := false, deadline := 0 }) none
-    ({ s with pca := s.pca ++ [(s.lastEntry, dl, CAct.join id)] }, o)
+    let dl := s0.now + c.ptimeout
+    let s1 : St := { s0 with replDl := s0.now + c.hb }
+    let r := execRpc c s1 [EntKind.conf] (some { start := s1.lastEntry + 1, senders := [], wait := false, deadline := 0 }) none
+    ({ r.1 with pca := r.1.pca ++ [(r.1.lastEntry, dl, CAct.join id)] }, r.2)
 
 /-! ### events -/
 
@@ -510,7 +529,9 @@ def step (c : Cfg) (s : St) (e : Ev) : St × Out :=
     | .tick ms => tick c s ms
     | .ack p m _ => ackSuccess c s p m
     | .ackConflict _ => (s, [])
-    | .ackHigher t => ackHigherTerm s t
+    | .ackHigher t =>
+      -- the harness sends `Success{last_match = 0}` from peer 2 with `response.term = t`
+      if t > s.term then ackHigherTerm s t else if t == s.term then ackSuccess c s 2 0 else (s, [])
     | .ackStale => (s, [])
     | .logFlushed => logFlushed c s
     | .apply k => applyUpTo s k
@@ -528,8 +549,8 @@ def init (c : Cfg) (pre : Nat) : St :=
 def run (c : Cfg) : St → List Ev → St × List Out
   | s, [] => (s, [])
   | s, e :: es =>
-    let (s1, o) := step c s e
-    let (s2, os) := run c s1 es
-    (s2, o :: os)
+    let r1 := step c s e
+    let r2 := run c r1.1 es
+    (r2.1, r1.2 :: r2.2)
 
 end DEngine.ClientQ
